@@ -64,6 +64,8 @@ var (
 	// to avoid declaration cycle
 	tmp = [pr.NbProperties]computerFunc{
 		pr.PBackgroundImage:    backgroundImage,
+		pr.PBorderImageSource:  singleImage,
+		pr.PListStyleImage:     singleImage,
 		pr.PBackgroundPosition: backgroundPosition,
 		pr.PObjectPosition:     objectPosition,
 		pr.PTransformOrigin:    transformOrigin,
@@ -177,34 +179,46 @@ func backgroundImage(computer *ComputedStyle, _ pr.KnownProp, _value pr.CssPrope
 	// documents (possibly rendered concurrently)
 	value := append(pr.Images(nil), _value.(pr.Images)...)
 	for i, image := range value {
-		switch gradient := image.(type) {
-		case pr.LinearGradient:
-			gradient.ColorStops = append(pr.ColorsStops(nil), gradient.ColorStops...)
-			for j, cl := range gradient.ColorStops {
-				if !cl.Position.IsNone() {
-					cl.Position = length_(computer, pr.DimOrS{Dimension: cl.Position}, -1, false).Dimension
-					gradient.ColorStops[j] = cl
-				}
-			}
-			image = gradient
-		case pr.RadialGradient:
-			gradient.ColorStops = append(pr.ColorsStops(nil), gradient.ColorStops...)
-			for j, cl := range gradient.ColorStops {
-				if !cl.Position.IsNone() {
-					cl.Position = length_(computer, pr.DimOrS{Dimension: cl.Position}, -1, false).Dimension
-					gradient.ColorStops[j] = cl
-				}
-			}
-			gradient.Center = centers(computer, []pr.Center{gradient.Center})[0]
-			if gradient.Size.IsExplicit() {
-				l := _lengthOrPercentageTuple2(computer, gradient.Size.Explicit.ToSlice())
-				gradient.Size.Explicit = pr.Point{l[0], l[1]}
-			}
-			image = gradient
-		}
-		value[i] = image
+		value[i] = gradientLengths(computer, image)
 	}
 	return value
+}
+
+// singleImage computes lenghts in a gradient used as border-image-source or
+// list-style-image.
+func singleImage(computer *ComputedStyle, _ pr.KnownProp, _value pr.CssProperty) pr.CssProperty {
+	return gradientLengths(computer, _value.(pr.Image))
+}
+
+// gradientLengths returns the image with the lengths of a gradient (color
+// stops, center, size) converted to pixels. It works on copies.
+func gradientLengths(computer *ComputedStyle, image pr.Image) pr.Image {
+	switch gradient := image.(type) {
+	case pr.LinearGradient:
+		gradient.ColorStops = append(pr.ColorsStops(nil), gradient.ColorStops...)
+		for j, cl := range gradient.ColorStops {
+			if !cl.Position.IsNone() {
+				cl.Position = length_(computer, pr.DimOrS{Dimension: cl.Position}, -1, false).Dimension
+				gradient.ColorStops[j] = cl
+			}
+		}
+		image = gradient
+	case pr.RadialGradient:
+		gradient.ColorStops = append(pr.ColorsStops(nil), gradient.ColorStops...)
+		for j, cl := range gradient.ColorStops {
+			if !cl.Position.IsNone() {
+				cl.Position = length_(computer, pr.DimOrS{Dimension: cl.Position}, -1, false).Dimension
+				gradient.ColorStops[j] = cl
+			}
+		}
+		gradient.Center = centers(computer, []pr.Center{gradient.Center})[0]
+		if gradient.Size.IsExplicit() {
+			l := _lengthOrPercentageTuple2(computer, gradient.Size.Explicit.ToSlice())
+			gradient.Size.Explicit = pr.Point{l[0], l[1]}
+		}
+		image = gradient
+	}
+	return image
 }
 
 func centers(computer *ComputedStyle, value pr.Centers) pr.Centers {
